@@ -15,7 +15,7 @@ import (
 	zv "github.com/go-openapi/runtime/internal/zzverif"
 )
 
-var c10Bases = []string{"/api", "/api?x=1&z=9", "/", "/api/", "api"}
+var c10Bases = []string{"/api", "/api?x=1&z=/srv/", "/", "/api/", "api"}
 var c10Patterns = []string{"/p/{a}/", "/p/{a}/q/{b}", "/p/{a}?x=2&y=3", "/{a}{b}", "/p/{a}", "/p/{b}/{a}"}
 
 func c10PathOnly(s string) string {
@@ -84,8 +84,10 @@ func VerifC10URL() {
 		}
 		return nil
 	})
-	r := newRequest("GET", pattern, w)
-	req, err := r.buildHTTP("application/json", base, nil, nil, nil)
+	// through the transport as a caller builds it (New roots a relative base path)
+	rt := New("h.example", base, []string{"http"})
+	req, err := rt.CreateHttpRequest(&runtime.ClientOperation{ID: "op", Method: "GET", PathPattern: pattern,
+		Schemes: []string{"http"}, ConsumesMediaTypes: []string{"application/json"}, Params: w})
 	if err != nil {
 		println("C10 build error:", err.Error())
 	}
@@ -96,7 +98,11 @@ func VerifC10URL() {
 	zv.Reach("built")
 	vals := map[string]string{"a": va, "b": vb}
 	pp := c10PathOnly(pattern)
-	tplPath := path.Join(c10PathOnly(base), pp)
+	rooted := c10PathOnly(base)
+	if !strings.HasPrefix(rooted, "/") {
+		rooted = "/" + rooted
+	}
+	tplPath := path.Join(rooted, pp)
 	if len(pp) > 1 && pp[len(pp)-1] == '/' {
 		tplPath += "/"
 		zv.Reach("trailing-slash")
